@@ -11,6 +11,8 @@ INVARIANT C15a_DofCountsWeighted
 INVARIANT C15a_NormalPosDef
 INVARIANT C15a_NoBetterNeighbour
 INVARIANT C15a_ZeroWeightIgnored
+INVARIANT C15a_ScaleBoundsSolution
+INVARIANT C15a_ScaleHomogeneous
 INVARIANT C15a_LayoutIndependent
 INVARIANT C15a_HomogeneousInB
 INVARIANT C15a_HomogeneousInS
